@@ -73,7 +73,10 @@ class Pseg(TimePattern):
             val_stream = stm.stream(levels)
             dur_stream = stm.stream(durs)
             cur_stream = stm.stream(curves)
-            val = val_stream.next(inval)  # Should not be an empty stream.
+            try:
+                val = val_stream.next(inval)
+            except stm.StopStream:
+                return inval  # No levels, nothing to interpolate.
             end_beat = _libsc3.main.current_tt._beats
             try:
                 while True:
